@@ -42,7 +42,9 @@ ReplyOK ==
     /\ Ev.wf
     /\ Ev.cls = reply'.cls
     /\ ("code" \in DOMAIN reply') => (Ev.code = reply'.code /\ Ev.text = reply'.text)
-Done == ReplyOK /\ SnapOK(boxes') /\ cfg' = cfg /\ Mark
+(* (a pipelining client has written the message together with DATA: when the 354 is read the store may already *)
+(* hold it - the driver marks that step "ahead" and the store is compared at the next step)                    *)
+Done == ReplyOK /\ (Has("ahead") \/ SnapOK(boxes')) /\ cfg' = cfg /\ Mark
 
 Pol == [defaultAccept |-> cfg.policy.defaultAccept, accept |-> ToSet(cfg.policy.accept),
         reject |-> ToSet(cfg.policy.reject), defaultStore |-> cfg.policy.defaultStore,
